@@ -87,6 +87,12 @@ fn parse_batches(args: &[i128], n: [usize; 2], nbatches: usize) -> Result<Vec<Ba
             return Err(format!("BADARGS zip: truncated header of batch {}", b));
         }
         let (side, s, cnt) = (args[i], args[i + 1], args[i + 2]);
+        if side == 0 {
+            // pause marker: [0, milliseconds, 0]
+            out.push(Batch { side: 2, sender: s as usize, elems: Vec::new() });
+            i += 3;
+            continue;
+        }
         if side != 1 && side != 2 {
             return Err(format!("BADARGS zip: side {} in batch {}", side, b));
         }
@@ -173,7 +179,7 @@ fn run(args: &[i128]) -> Result<String, String> {
             global_id: 0,
             prev: prev.clone(),
             network: &mut topology,
-            batch_mode: BatchMode::fixed(1024),
+            batch_mode: if std::env::var("VERIF_REPLAY_BINSTART_ADAPTIVE").is_ok() { BatchMode::adaptive(1024, Duration::from_millis(100)) } else { BatchMode::fixed(1024) },
         };
         zip.setup(&mut metadata);
     }
@@ -217,6 +223,10 @@ fn run(args: &[i128]) -> Result<String, String> {
         .name("verif-senders".into())
         .spawn(move || {
             for b in batches {
+                if b.side == 2 {
+                    std::thread::sleep(Duration::from_millis(b.sender as u64));
+                    continue;
+                }
                 let (coord, tx) = &senders[b.side][b.sender];
                 // the receiver may be gone already (Zip terminated): not an error of the driver
                 let _ = tx.send(NetworkMessage::new_batch(b.elems, *coord));
@@ -231,7 +241,7 @@ fn run(args: &[i128]) -> Result<String, String> {
         .ok()
         .and_then(|s| s.parse::<u64>().ok())
         .unwrap_or(10_000);
-    let deadline = Instant::now() + Duration::from_millis(watchdog_ms + gap_ms * nbatches as u64);
+    let deadline = Instant::now() + Duration::from_millis(watchdog_ms + 2000 + gap_ms * nbatches as u64);
 
     let mut out = Vec::new();
     loop {
